@@ -215,3 +215,25 @@ Definition emit_width (w : world) : bool := fbasn (ws w).
 (* connection established on both sides and the sender has nothing to do *)
 Definition stable (w : world) : Prop :=
   exists id, conn (ws w) = Some id /\ up (wp w) = Some id /\ synced (ws w) = true /\ pending (ws w) = None.
+
+(* ------------------------------------------------------------------ *)
+(* backoff.go: multiplicative backoff of the run() loop, in milliseconds.
+   run(): a failed connect() sleeps Duration(); a successful one calls Reset(). *)
+Definition bo_max : N := 120000.
+(* Duration(): returns the current delay and doubles it (first 1 s), capped *)
+Definition bo_duration (b : N) : N * N :=
+  (b, if b =? 0 then 1000 else N.min (b * 2) bo_max).
+Definition bo_reset : N := 0.
+(* a sequence of calls on one backoff value: true = Duration(), false = Reset();
+   result: the delays returned by the Duration() calls *)
+Fixpoint bo_run (b : N) (ops : list bool) : list N :=
+  match ops with
+  | [] => []
+  | true :: r => fst (bo_duration b) :: bo_run (snd (bo_duration b)) r
+  | false :: r => bo_run bo_reset r
+  end.
+(* state after k consecutive failed attempts since the last success / start *)
+Fixpoint bo_after (k : nat) : N :=
+  match k with O => bo_reset | S k => snd (bo_duration (bo_after k)) end.
+(* the sleep before attempt k+2 of a streak (k failed attempts already slept) *)
+Definition bo_delay (k : nat) : N := fst (bo_duration (bo_after k)).
